@@ -1,5 +1,6 @@
 import Umya.Driver.Proto
 import Umya.Model.Lazy
+import Umya.Model.LazyPkg
 /-
   Line protocol of C11.  The driver instantiates the model's open parameters:
     * sheet content = (which sheet of the file it was decoded from, the cells written by `edit` requests);
@@ -76,10 +77,19 @@ def parseHexName (h : String) : Option PName := (decodeStr h).map (fun cs => par
 
 def splitList (s : String) (sep : String) : List String := if s.isEmpty then [] else s.splitOn sep
 
+/-- a hash as 16 hex digits -/
+def parseHexNat (s : String) : Option Nat :=
+  if s.isEmpty then none
+  else s.toList.foldl (fun acc c => match acc, hexVal c with | some a, some v => some (a * 16 + v) | _, _ => none) (some 0)
+
 def parseRel (s : String) : Option RawRel :=
-  if s = "x" then some { ext := true, file := .other [], cid := 0, empty := true }
+  if s = "x" then some extRel
   else match s.splitOn "." with
     | [h, e] => (parseHexName h).map (fun n => { ext := false, file := n, cid := 0, empty := e = "1" })
+    | [h, e, c] =>
+      match parseHexName h, parseHexNat c with
+      | some n, some cid => some { ext := false, file := n, cid := cid, empty := e = "1" }
+      | _, _ => none
     | _ => none
 
 def parseRawRels (s : String) : Option RawRels :=
@@ -90,13 +100,43 @@ def parseRawRels (s : String) : Option RawRels :=
     | _, _ => none
   | _ => none
 
-/-- `<name>:<part>:<relspart>+<relspart>…` -/
-def parseSheetDesc (k : Nat) (s : String) : Option (Name × RawSheet) :=
+/-- `<part>:<relspart>+<relspart>…:<hash>`: a raw sheet as the harness' zip scan computes it (`reset`) or as the
+    implementation holds it (`inv`) -/
+def parseRawSheet (p cl c : String) : Option RawSheet :=
+  match parseHexName p, (splitList cl "+").mapM parseRawRels, parseHexNat c with
+  | some part, some closure, some cid => some { file := part, cid := cid, closure := closure }
+  | _, _, _ => none
+
+/-- `<name>:<part>:<relspart>+<relspart>…:<hash>` -/
+def parseSheetDesc (_k : Nat) (s : String) : Option (Name × RawSheet) :=
   match s.splitOn ":" with
-  | [n, p, cl] =>
-    match decodeStr n, parseHexName p, (splitList cl "+").mapM parseRawRels with
-    | some name, some part, some closure => some (name, { file := part, cid := k, closure := closure })
-    | _, _, _ => none
+  | [n, p, cl, c] =>
+    match decodeStr n, parseRawSheet p cl c with
+    | some name, some r => some (name, r)
+    | _, _ => none
+  | _ => none
+
+/-- one sheet of the reported state: `-` = deserialized -/
+def parseStateSheet (s : String) : Option (Option RawSheet) :=
+  if s = "-" then some none
+  else match s.splitOn ":" with
+    | [p, cl, c] => (parseRawSheet p cl c).map some
+    | _ => none
+
+/-- one zip entry of the file: `<name>.<hash>.<0|1>` and, for a relationships part, `><entry>,…` (entry = `x` or target) -/
+def parsePkgPart (s : String) : Option (PName × Part) :=
+  let (head, rels) : String × Option String := match s.splitOn ">" with
+    | [h, r] => (h, some r)
+    | _ => (s, none)
+  match head.splitOn "." with
+  | [n, c, e] =>
+    match parseHexName n, parseHexNat c with
+    | some name, some cid =>
+      let rs : Option (List PRel) := match rels with
+        | none => some []
+        | some r => (splitList r ",").mapM (fun t => if t = "x" then some { ext := true, file := .other [] } else (parseHexName t).map (fun n => { ext := false, file := n }))
+      rs.map (fun rs => (name, { cid := cid, empty := e = "1", rels := rs }))
+    | _, _ => none
   | _ => none
 
 def mapIdxM {α β} (f : Nat → α → Option β) : Nat → List α → Option (List β)
@@ -185,8 +225,13 @@ def applyEd (e : Ed) (l : Loaded Cnt) : Loaded Cnt :=
         ((l.content.cells.filter (fun p => p.1.2 < row ∨ p.1.2 ≥ row + k)).map
           (fun p => ((p.1.1, if p.1.2 ≥ row + k then p.1.2 - k else p.1.2), p.2))).foldr (fun p acc => putCell p.1 p.2 acc) [] } }
 
-def codec : Codec Cnt Ed where
-  decode := fun r _ => { content := { origin := some r.cid } }
+def indexOfPart (n : PName) : List PName → Option Nat
+  | [] => none
+  | m :: r => if m = n then some 0 else (indexOfPart n r).map (· + 1)
+
+/-- `sp`: the sheet parts of the file, in workbook order; a deserialized sheet remembers which one it was decoded from -/
+def codecOf (sp : List PName) : Codec Cnt Ed where
+  decode := fun r _ => { content := { origin := indexOfPart r.file sp } }
   apply := applyEd
   fresh := { content := { origin := none } }
   texts := fun _ => []
@@ -195,7 +240,27 @@ def codec : Codec Cnt Ed where
 
 structure St where
   book : Book Cnt := {}
+  pkg : Pkg := {}
   dead : Bool := true
+
+def St.codec (st : St) : Codec Cnt Ed := codecOf (st.pkg.sheets.map (·.2))
+
+def rawView (b : Book Cnt) : List (Option RawSheet) :=
+  b.sheets.map (fun s => match s.body with | .raw r => some r | .loaded _ => none)
+
+def dedupNames : List PName → List PName
+  | [] => []
+  | n :: r => let d := dedupNames r; if d.contains n then d else n :: d
+
+def closureNames (r : RawSheet) : List PName :=
+  dedupNames (r.closure.flatMap (fun q => q.name :: q.rels.filterMap (fun x => if x.ext then none else some x.file)))
+
+/-- raw sheets, names in their closures, names that are in the closure of more than one raw sheet -/
+def closureStats (rs : List RawSheet) : Nat × Nat × Nat :=
+  let per := rs.map closureNames
+  let all := per.flatten
+  let shared := (dedupNames all).filter (fun n => (per.filter (fun l => l.contains n)).length > 1)
+  (rs.length, all.length, shared.length)
 
 def flags (b : Book Cnt) : String := String.ofList (b.sheets.map (fun s => if s.isRaw then 'R' else 'L'))
 def namesOf (b : Book Cnt) : String := ",".intercalate (b.sheets.map (fun s => encodeStr s.name))
@@ -238,18 +303,24 @@ def renderSaved (s : Saved Cnt) : String :=
 def handle (st : St) (args : List String) : St × String :=
   match args with
   | ["reset", _id] => ({ dead := true }, "skip")
-  | ["reset", _id, d] =>
-    if d.startsWith "D=" then
-      match mapIdxM parseSheetDesc 0 (splitList (d.drop 2).toString ";") with
-      | some sheets =>
+  | ["reset", _id, d, x] =>
+    if d.startsWith "D=" ∧ x.startsWith "X=" then
+      match mapIdxM parseSheetDesc 0 (splitList (d.drop 2).toString ";"), (splitList (x.drop 2).toString ";").mapM parsePkgPart with
+      | some sheets, some parts =>
+        -- `b`: what the harness' own zip scan says the reader records; `lazyOpen pkg`: what the model's reader records
         let b : Book Cnt := { sheets := sheets.map (fun (n, r) => { name := n, body := .raw r }) }
-        ({ book := b, dead := false }, s!"ok {status b}")
-      | none => ({ dead := true }, "unmodelled")
+        let pkg : Pkg := { parts := parts, sheets := sheets.map (fun (n, r) => (n, r.file)) }
+        let opened : Bool := match (lazyOpen pkg : Option (Book Cnt)) with
+          | some b' => decide (rawView b' = rawView b) && decide (b'.sheets.map (·.name) = b.sheets.map (·.name))
+          | none => false
+        ({ book := b, pkg := pkg, dead := false }, s!"ok {status b} open={if opened then 1 else 0} ## pkgok={if pkgOk pkg then 1 else 0}")
+      | _, _ => ({ dead := true }, "unmodelled")
     else ({ dead := true }, "bad-op")
   | op :: rest =>
     if st.dead then (st, "unmodelled")
     else
       let b := st.book
+      let codec := st.codec
       match op, rest with
       | "read", [i] => match i.toNat? with
         | some i => replyOf st (step codec b (.readSheet i))
@@ -310,6 +381,20 @@ def handle (st : St) (args : List String) : St × String :=
           | none => (st, "unmodelled")
         else (st, "bad-op")
       | "save", [] => (st, "unmodelled")       -- the eager workbook could not be saved: nothing to predict
+      | "inv", [d] =>
+        -- the state the implementation reports: is it the model's state, and is it package-consistent?
+        if d.startsWith "S=" then
+          match (splitList (d.drop 2).toString ";").mapM parseStateSheet with
+          | some rep =>
+            let same := decide (rep = rawView b)
+            let rb : Book Cnt := { sheets := rep.map (fun o => match o with
+              | some r => { name := [], body := .raw r }
+              | none => { name := [], body := .loaded codec.fresh }) }
+            let cons := consistent st.pkg rb
+            let (nr, nn, ns) := closureStats (rep.filterMap id)
+            (st, s!"ok cons={if cons then 1 else 0} same={if same then 1 else 0} ## raw={nr} names={nn} shared={ns}")
+          | none => (st, "unmodelled")
+        else (st, "bad-op")
       | _, _ => (st, "bad-op")
   | _ => (st, "bad-op")
 
